@@ -353,7 +353,7 @@ func VerifDump(c *Cache[int, int]) (fwd, bwd [][2]int, n int) {
 		}
 		mb.WriteString("\t}\n")
 	}
-	mb.WriteString("}\n\nfunc dump(c *lru.Cache[int, int]) {\n\tf, b, n := lru.VerifDump(c)\n\tfmt.Println(f, b, n)\n}\n")
+	mb.WriteString("}\n\nfunc dump(c *lru.Cache[int, int]) {\n\tf, b, n := lru.VerifDump(c)\n\tfmt.Println(f, \"|\", b, \"|\", n)\n}\n")
 	os.WriteFile(filepath.Join(dir, "main.go"), []byte(mb.String()), 0o644)
 	cmd := exec.Command("go", "run", ".")
 	cmd.Dir = dir
@@ -393,16 +393,11 @@ func VerifDump(c *Cache[int, int]) (fwd, bwd [][2]int, n int) {
 			if f[1] != "-" {
 				got = "some " + f[1]
 			}
-			rest := f[2]
-			// rest = "[fwd] [bwd] n"
-			lb := strings.LastIndex(rest, " ")
-			nStr := rest[lb+1:]
-			two := rest[:lb]
-			mid := strings.Index(two, "] [")
-			if mid < 0 {
+			parts := strings.Split(f[2], " | ")
+			if len(parts) != 3 {
 				return "", fmt.Errorf("bad trace line %q", l)
 			}
-			fwd, bwd := parsePairs(two[:mid+1]), parsePairs(two[mid+2:])
+			fwd, bwd, nStr := parsePairs(parts[0]), parsePairs(parts[1]), strings.TrimSpace(parts[2])
 			// the doubly linked list must be consistent and as long as the map
 			if len(fwd) != len(bwd) || fmt.Sprint(len(fwd)) != nStr {
 				return "", fmt.Errorf("lru internal inconsistency (list forward %v, backward %v, len(m)=%s)", fwd, bwd, nStr)
